@@ -106,11 +106,16 @@ def compare_assembly(ctx, rng, V, M, texts, label):
                           texts=variant, case_map=how, cls=[V.__name__, M.__name__])
 
 
-def typing_outcome(cls, text):
+def typing_outcome(cls, text, linear=False):
     from Bio.Seq import Seq
+    from Bio.SeqRecord import SeqRecord
     from moclo.record import CircularRecord
 
-    e = cls(CircularRecord(Seq(text), "t"))
+    if linear:
+        # a linear molecule (PCR product, linearised plasmid): a plain SeqRecord whose annotations say so
+        e = cls(SeqRecord(Seq(text), "t", annotations={"topology": "linear"}))
+    else:
+        e = cls(CircularRecord(Seq(text), "t"))
     try:
         if not e.is_valid():
             return ("rejected",)
@@ -122,14 +127,35 @@ def typing_outcome(cls, text):
         return ("raised", type(ex).__name__)
 
 
-def compare_typing(ctx, rng, cls, text, mode):
-    base = typing_outcome(cls, text.upper())
-    for how in ("lower", "per-letter", "per-letter", "mixed-upper-lower-halves"):
-        variant = apply_map(rng, [text], how)[0]
+def region_map(cls, text, inside_upper=True):
+    """spell the first occurrence of the class's structure (found by the reference matcher on the upper-case text) in one
+    case and everything else in the other - a record pasted together from two files"""
+    from .. import rxmodel
+    try:
+        sp = rxmodel.search(cls.structure(), text.upper(), 0, None, True)
+    except (KeyError, ValueError):
+        sp = None
+    if sp is None:
+        return None
+    n = len(text)
+    a, b = sp[0]
+    inside = {j % n for j in range(a, b)}
+    return "".join((c.upper() if (j in inside) == inside_upper else c.lower()) for j, c in enumerate(text))
+
+
+def compare_typing(ctx, rng, cls, text, mode, linear=False):
+    base = typing_outcome(cls, text.upper(), linear)
+    variants = [(how, apply_map(rng, [text], how)[0]) for how in ("lower", "per-letter", "per-letter", "mixed-upper-lower-halves")]
+    for flag, name in ((True, "structure-upper-rest-lower"), (False, "structure-lower-rest-upper")):
+        v = region_map(cls, text, flag)
+        if v is not None:
+            variants.append((name, v))
+    for how, variant in variants:
         ctx.count("evaluations")
-        got = typing_outcome(cls, variant)
+        got = typing_outcome(cls, variant, linear)
         ctx.count("c18_typing_comparisons")
         ctx.hist("typing_upper_outcome", "%s:%s" % (mode, base[0]))
+        ctx.hist("case_map", how)
         if base[0] == "accepted" and variant != text.upper():
             ctx.nontrivial([cls.__name__, variant])
         if got != base:
@@ -161,9 +187,18 @@ def execute(mat, ctx):
         rng = gen.rng_for(mat["seed"], PROP, kind, mat.get("cls") or mat.get("enzyme"))
         for cls in targets:
             for j in range(mat["count"] // len(targets)):
-                mode = ["own", "own", "other", "extra-site", "mutant"][j % 5]
+                mode = ["own", "own", "other", "extra-site", "mutant", "site-behind", "linear"][j % 7]
                 src = cls if mode != "other" else rng.choice(classes)
                 s = gen.instance(rng, src.structure(), run_max=15) + gen.rand_dna(rng, rng.randint(0, 20))
+                if mode == "site-behind":
+                    # a further site of the cutter *after* the regular structure (in the backbone)
+                    s += rng.choice([cls.cutter.site, rc(cls.cutter.site)]) + gen.rand_dna(rng, rng.randint(1, 12))
+                    compare_typing(ctx, rng, cls, s, mode)
+                    continue
+                if mode == "linear":
+                    ctx.count("c18_linear_typing_cases")
+                    compare_typing(ctx, rng, cls, gen.rand_dna(rng, rng.randint(0, 6)) + s, mode, linear=True)
+                    continue
                 if mode == "extra-site":
                     i = rng.randrange(len(s))
                     s = s[:i] + rng.choice([cls.cutter.site, rc(cls.cutter.site)]) + s[i:]
